@@ -21,7 +21,9 @@ and the flush half of `ctrlMiddleware.processCacheFlushRsp`. The shootdown path 
 
 Since repair 0728adcb a `FlushReq` waits in the driver port while `shootDownInProcess` and a
 `ShootDownCommand` waits while `numCacheACK > 0` (`CpS.handle`, `CpS.hShoot`; the code before that repair
-is kept as `CpS.handleOld / hShootOld / tickOld`, `CpSEnv.stepOld`, `runOld`). A THIRD user of the counter
+is kept as `CpS.handleOld / hShootOld / tickOld`, `CpSEnv.stepOld`, `runOld`). Since the repair of finding
+`C11-cp-launch-in-shootdown` a `LaunchKernelReq` waits while `shootDownInProcess`, too (`CpS.launch`; the
+code before that repair: `CpS.launchOld / handleOldL / tickOldL`, `CpSEnv.stepOldL`, `runOldL`). A THIRD user of the counter
 was added by repair da0cc607: `cpMiddleware.processLaunchKernelReq` → `invalidateL1CachesBeforeKernel`
 sends an invalidating `FlushReq` to every L1S and L1V cache before a kernel starts on an idle GPU
 (`numCacheACK++` each, `l1InvalidatedFor = req`, the request stays at the head of the port), and
@@ -209,20 +211,35 @@ def CpS.invalidate (id : Nat) (s : CpS) (i : Nat) : CpS :=
 /-- the caches `invalidateL1CachesBeforeKernel` asks: L1S, then L1V -/
 def CpS.ordInval (s : CpS) : List Nat := cpsSeg s.nI s.nS ++ cpsSeg (s.nI + s.nS) s.nV
 
-/-- `cpMiddleware.processLaunchKernelReq` for the launch request `id` at the head of the port
-    (`rest` = the port behind it): no free dispatcher → wait; `numCacheACK > 0` → wait;
-    `invalidateL1CachesBeforeKernel`: the invalidation of this request is complete → start; a kernel is
+/-- `invalidateL1CachesBeforeKernel` and what follows it in `processLaunchKernelReq`, for the launch
+    request `id` at the head of the port: the invalidation of this request is complete → start; a kernel is
     running → start without invalidation; else one invalidating flush request per L1S / L1V cache, and
     the request waits (without such caches: start) -/
-def CpS.launch (s : CpS) (id : Nat) (rest : List SIn) : CpS × Bool :=
-  if s.nDisp ≤ s.busy then (s, false) else
-  if s.c.numAck > 0 then (s, false) else
+def CpS.launchGo (s : CpS) (id : Nat) (rest : List SIn) : CpS × Bool :=
   if s.l1Inv = some id then (s.kstart id rest, true) else
   if s.busy > 0 then (s.kstart id rest, true) else
   let s1 := s.ordInval.foldl (CpS.invalidate id) s
   if s1.c.fault.isSome then (s1, true) else
   if s1.c.numAck = 0 then (s1.kstart id rest, true) else
   ({ s1 with l1Inv := some id }, true)
+
+/-- `cpMiddleware.processLaunchKernelReq` for the launch request `id` at the head of the port
+    (`rest` = the port behind it): no free dispatcher → wait; `numCacheACK > 0` → wait;
+    `shootDownInProcess` → wait (repair of finding `C11-cp-launch-in-shootdown`: the kernel-start
+    invalidation shares `numCacheACK` with the shootdown's cache phase); then
+    `invalidateL1CachesBeforeKernel` (`CpS.launchGo`) -/
+def CpS.launch (s : CpS) (id : Nat) (rest : List SIn) : CpS × Bool :=
+  if s.nDisp ≤ s.busy then (s, false) else
+  if s.c.numAck > 0 then (s, false) else
+  if s.shoot then (s, false) else
+  s.launchGo id rest
+
+/-- `processLaunchKernelReq` BEFORE the repair of `C11-cp-launch-in-shootdown`: no guard on
+    `shootDownInProcess` -/
+def CpS.launchOld (s : CpS) (id : Nat) (rest : List SIn) : CpS × Bool :=
+  if s.nDisp ≤ s.busy then (s, false) else
+  if s.c.numAck > 0 then (s, false) else
+  s.launchGo id rest
 
 /-- `cpMiddleware.Handle` on the head of the driver port: `processFlushReq` / `processMemCopyReq` (guarded
     by `numCacheACK > 0`; a flush also waits while `shootDownInProcess`) or `processLaunchKernelReq` -/
@@ -233,12 +250,22 @@ def CpS.handle (s : CpS) : CpS × Bool :=
   | m :: _, _ => if m.kind = .flush ∧ s.shoot = true then (s, false) else s.liftCp s.cpView.handle
   | _, _ => (s, false)
 
-/-- `cpMiddleware.Handle` before repair 0728adcb: a flush request does not wait for a shootdown -/
+/-- `cpMiddleware.Handle` before repair 0728adcb: neither a flush request nor a launch request waits
+    for a shootdown -/
 def CpS.handleOld (s : CpS) : CpS × Bool :=
   if s.c.fault.isSome then (s, false) else
   match s.c.drvIn, s.later with
-  | [], .launch id :: rest => s.launch id rest
+  | [], .launch id :: rest => s.launchOld id rest
   | _ :: _, _ => s.liftCp s.cpView.handle
+  | _, _ => (s, false)
+
+/-- `cpMiddleware.Handle` after repair 0728adcb and before the repair of `C11-cp-launch-in-shootdown`: a
+    flush request waits for a shootdown, a launch request does not -/
+def CpS.handleOldL (s : CpS) : CpS × Bool :=
+  if s.c.fault.isSome then (s, false) else
+  match s.c.drvIn, s.later with
+  | [], .launch id :: rest => s.launchOld id rest
+  | m :: _, _ => if m.kind = .flush ∧ s.shoot = true then (s, false) else s.liftCp s.cpView.handle
   | _, _ => (s, false)
 
 /-- `cpMiddleware.processRspFromDMAs` -/
@@ -391,6 +418,24 @@ def CpS.passOld (s : CpS) : CpS × Bool :=
   let k := t.1.cacheRsp
   let l := k.1.rTLB
   (l.1, a.2 || b.2 || h.2 || u.2 || t.2 || k.2 || l.2)
+
+/-- one pass before the repair of `C11-cp-launch-in-shootdown` -/
+def CpS.passOldL (s : CpS) : CpS × Bool :=
+  let a := s.handleOldL
+  let b := a.1.dmaRsp
+  let h := b.1.hShoot
+  let u := h.1.rCU
+  let t := u.1.rAT
+  let k := t.1.cacheRsp
+  let l := k.1.rTLB
+  (l.1, a.2 || b.2 || h.2 || u.2 || t.2 || k.2 || l.2)
+
+/-- `CommandProcessor.Tick` before the repair of `C11-cp-launch-in-shootdown` -/
+def CpS.tickOldL (s : CpS) : CpS × Bool :=
+  if s.c.fault.isSome then (s, false) else
+  let a := if s.c.drvIn.isEmpty && s.later.isEmpty then (s, false) else s.passOldL
+  let b := a.1.passOldL
+  (b.1, a.2 || b.2)
 
 /-- `CommandProcessor.Tick` before repair 0728adcb -/
 def CpS.tickOld (s : CpS) : CpS × Bool :=
@@ -588,6 +633,19 @@ def CpSEnv.stepOld (e : CpSEnv) : SOp → CpSEnv × String
 def CpSEnv.runOld (e : CpSEnv) : List SOp → CpSEnv
   | [] => e
   | op :: rest => ((e.stepOld op).1).runOld rest
+
+/-- the environment around the code before the repair of `C11-cp-launch-in-shootdown` -/
+def CpSEnv.stepOldL (e : CpSEnv) : SOp → CpSEnv × String
+  | .cp .tick =>
+    let r := e.s.tickOldL
+    ({ e with s := r.1 }, match r.1.c.fault with
+      | some f => "fault:" ++ f
+      | none => if r.2 then "t1" else "t0")
+  | op => e.step op
+
+def CpSEnv.runOldL (e : CpSEnv) : List SOp → CpSEnv
+  | [] => e
+  | op :: rest => ((e.stepOldL op).1).runOldL rest
 
 /-- the observable strings of a run -/
 def CpSEnv.trace (e : CpSEnv) : List SOp → List String
